@@ -141,6 +141,9 @@ def run(ctx):
     # hashes used for matched blocks: check_filters_data returns message block_hashes (documented: unverified)
     height_binding(ctx)
     anchoring(ctx)
+    # the block downloaded for a matching filter is a proven-chain block: what is marked proved comes from verified headers (shared with C02.r5)
+    from rules.C02 import proved_data_provenance
+    proved_data_provenance(ctx, 'C06.r6')
     # reviewed reference of the checker functions' decision structure (engine/census.py)
     from rules import census_fns
     census_fns.run(ctx, 'C06')
